@@ -84,7 +84,10 @@ class ODMLWriter:
             # Render the document before opening the file: if rendering fails,
             # no file is created and an existing file is not truncated.
             data = self.to_string(odml_document, **kwargs)
-            with open(filename, 'w') as file:
+            # JSON and YAML output is ASCII, the RDF formats are UTF-8 by definition:
+            # do not depend on the locale encoding, and fail before opening the file.
+            data.encode("utf-8")
+            with open(filename, 'w', encoding="utf-8") as file:
                 file.write(data)
 
     def to_string(self, odml_document, **kwargs):
